@@ -6,8 +6,9 @@ PROP = dict(
                    "case's universe (and every prefix of it) is queried for value and existence; path functions are compared with "
                    "split(separator) / a vector of byte strings"),
         level_text=("Monitored executions of the real configuration code.  Store legs: histories of 50..250 (thorough 400) assign / remove / "
-                    "clear / query operations over a universe of 6..20 paths built from 4..6 element names (lengths 1..3, one of 254..257, "
-                    "optionally the empty name; shared prefixes, prefix-of-another, repeated elements), separators '.', '/', ':' mixed freely, "
+                    "clear / query operations over a universe of 6..20 paths built from 5..8 element names (lengths 1..3, one of 254..257, "
+                    "optionally the empty name, up to 4 names of a length at the inline name capacity of the elements and +-1: 18..20, 82..84, "
+                    "210..212 for config nodes, 10..12 for C++ config items, used at every level; shared prefixes, prefix-of-another, repeated elements), separators '.', '/', ':' mixed freely, "
                     "end-delimiter form, binary (length-linked) paths, values of 0..300 bytes, assignments the store refuses (value without type, "
                     "unregistered type id: the map must stay exactly as it was); stores: the process-wide one incl. up to 4 "
                     "sub-tree views (1600 / 40k one-history processes) and a private C++ config::root (8k / 300k histories).  After every "
@@ -29,6 +30,9 @@ PROP = dict(
                            "mpt_config_global:view": 2000, "view:assign": 10000, "view:remove": 5000, "view:node-conversion": 1000,
                            "config::assign:binary-path": 2000, "config::remove:binary-path": 1000,
                            "config::assign:refused": 5000, "state:refused-on-absent-path": 2000,
+                           "universe:capacity-element": 800, "state:capacity-name-level1": 8000, "state:capacity-name-level2": 6000,
+                           "state:capacity-name-level3": 3000, "state:capacity-name-level4": 1000,
+                           "state:view-base-capacity-name": 800, "view:assign-capacity-name": 600,
                            "state:overwrite": 10000, "state:remove-inner-node": 2000, "state:remove-absent": 3000,
                            "state:view-base-created": 300, "universe:long-element": 500, "universe:empty-element": 200,
                            "monitor:value-compares": 500000, "monitor:absence-compares": 500000,
@@ -38,6 +42,8 @@ PROP = dict(
                            "config::del": 30000, "config::root::remove": 30000, "config::root::remove:clear": 5000,
                            "state:overwrite": 30000, "state:remove-inner-node": 5000, "state:long-value": 5000,
                            "state:del-explicit-length": 10000, "config::root::assign:refused": 50000,
+                           "universe:capacity-element": 3000, "state:capacity-name-level1": 20000, "state:capacity-name-level2": 15000,
+                           "state:capacity-name-level3": 8000, "state:capacity-name-level4": 3000,
                            "state:refused-on-absent-path": 30000, "state:refused-with-absent-intermediate": 15000,
                            "monitor:value-compares": 2000000, "monitor:absence-compares": 2000000,
                            "monitor:existence-compares": 5000000})],
